@@ -200,6 +200,7 @@ func (sm *SessionManager) background() {
 
 				select {
 				case <-pool.Session().CloseChan():
+					vpo(vpSMWatcherLost, sm, int64(id))
 					sm.RLock()
 					// in hotrestart state break this select and wait for hotrestar done
 					if sm.state == hotRestartState {
@@ -229,7 +230,9 @@ func (sm *SessionManager) background() {
 							break
 						}
 						// both new epoch pools and old epoch pools which has not been replaced will use new epochId to rebuild session
+						vpo(vpSMRebuildBefore, sm, int64(id))
 						session, err := newClientSession(id, sm.epoch, sm.randID, sm.config)
+						vpo(vpSMRebuildAfter, sm, int64(id))
 						sm.Unlock()
 						if err != nil {
 							internalLogger.errorf("rebuild stream pool's sessionID %d %s failed, reason:%s. retry after %s", id, pool.Session().name, err.Error(), sessionRebuildInterval.String())
@@ -329,7 +332,9 @@ func handleSessionManagerHotRestart(sm *SessionManager, params interface{}) {
 		return
 	}
 
+	vpo(vpSMHotRestartBeforeNew, sm, int64(hParams.session.sessionID))
 	newSession, err := newClientSession(hParams.session.sessionID, sm.epoch, sm.randID, sm.config)
+	vpo(vpSMHotRestartAfterNew, sm, int64(hParams.session.sessionID))
 	if err != nil {
 		internalLogger.warnf("SessionManager [epoch:%d] handleSessionManagerHotRestart newClientSession sessionID:%d error %+v", sm.epoch, hParams.session.sessionID, err)
 		return
@@ -411,6 +416,7 @@ func (p *streamPool) getOrOpenStream() (*Stream, error) {
 		return nil, ErrSessionUnhealthy
 	}
 	for stream := p.pop(); stream != nil; stream = p.pop() {
+		vpo(vpPoolPopped, stream, 0)
 		if !stream.Session().IsClosed() {
 			// ensure return an open stream
 			if stream.IsOpen() {
@@ -435,6 +441,7 @@ func (p *streamPool) putOrCloseStream(s *Stream) {
 	}
 
 	if err := s.reset(); err == nil {
+		vpo(vpPoolBeforePush, s, 0)
 		s.ReleaseReadAndReuse()
 		if p.push(s) != nil {
 			s.Close()
